@@ -104,7 +104,9 @@ def make_case(seed, i):
         between = between + [dict(op="draw", n=rng.randrange(1, 50), normal=rng.randrange(0, 5))]
     alt_clock = dict(mode=gen._choice(rng, ["zero", "long", "rand"]), seed=rng.randrange(1, 10**6), lo=0.0, hi=50.0,
                      jumps=[dict(at_call=rng.randrange(1, 40), kind=gen._choice(rng, ["in", "post"]), delta=gen._choice(rng, [-3600.0, 86400.0, -5.0]))])
-    return dict(S=S, pre=pre, between=between, alt_clock=alt_clock, index=i)
+    # the run under test is built from caller-owned arrays that an earlier instance was built (or built and run) from
+    reuse = gen._choice(stream(seed, f"c07reuse/{i}"), [None, None, "construct", "run"])
+    return dict(S=S, pre=pre, between=between, alt_clock=alt_clock, index=i, reuse=reuse)
 
 
 def variant(arg):
@@ -116,6 +118,8 @@ def variant(arg):
         S["between"] = arg["between"]
     if arg.get("clock"):
         S["clock"] = arg["clock"]
+    if arg.get("reuse"):
+        S["reuse_arrays"] = arg["reuse"]
     r = run.run_scenario(S)
     return dict(sem=r["sem_digest"], outcome=r["outcome"], n_calls=r["n_calls"], result=r.get("result"), fired=r.get("fault_fired"),
                 exc=(r.get("exc") or {}).get("type"), traj=r["traj"], n_polls=r["n_polls"])
@@ -151,12 +155,12 @@ def main(tier):
     tasks = []
     for c in cases:
         tasks.append(dict(S=c["S"]))                                              # (a) pristine
-        tasks.append(dict(S=c["S"], pre=c["pre"], between=c["between"]))          # (b) after history
+        tasks.append(dict(S=c["S"], pre=c["pre"], between=c["between"], reuse=c.get("reuse")))          # (b) after history
         tasks.append(dict(S=c["S"], clock=c["alt_clock"]))                        # (c) other clock
     t0 = time.time()
     outs = harness.run_batch(variant, tasks, timeout=900, report=rep)
     fresh_idx = list(range(0, n, max(1, n // n_fresh)))[:n_fresh]
-    fouts = harness.run_batch(fresh_task, [dict(arg=dict(S=cases[i]["S"], pre=cases[i]["pre"], between=cases[i]["between"]),
+    fouts = harness.run_batch(fresh_task, [dict(arg=dict(S=cases[i]["S"], pre=cases[i]["pre"], between=cases[i]["between"], reuse=cases[i].get("reuse")),
                                                 hashseed=4242 + i) for i in fresh_idx], timeout=1200, report=rep, workers=8)
     fresh = dict(zip(fresh_idx, fouts))
     nt = set()
@@ -180,9 +184,9 @@ def main(tier):
             if o["sem"] != a["sem"]:
                 what = f"calls {a['n_calls']} vs {o['n_calls']}, outcome {a['outcome']} vs {o['outcome']}, result {json.dumps(a.get('result'))[:160]} vs {json.dumps(o.get('result'))[:160]}"
                 rep.add_violation("differs-after-" + lab, f"same problem/options/random_seed gave a different run after {lab}: {what}",
-                                  dict(S=c["S"], pre=c["pre"] if lab != "clock" else [], between=c["between"] if lab != "clock" else [],
+                                  dict(S=c["S"], pre=c["pre"] if lab != "clock" else [], between=c["between"] if lab != "clock" else [], reuse=c.get("reuse") if lab != "clock" else None,
                                        alt_clock=c["alt_clock"] if lab == "clock" else None, variant=lab), "c07case")
-        if a["outcome"] == "completed" and (c["pre"] or c["between"]):
+        if a["outcome"] == "completed" and (c["pre"] or c["between"] or c.get("reuse")):
             nt.add(harness.scn_digest(c))
         shapes["pre:" + ",".join(o["op"] for o in c["pre"]) + "|btw:" + ",".join(o["op"] for o in c["between"])] += 1
         if len(samples) < 3:
@@ -197,6 +201,7 @@ def main(tier):
         cases=len(cases), comparisons=n_cmp, fresh_interpreter_cases=len([o for o in fouts if o is not None]),
         outcomes=dict(oc), distinct_history_shapes=len(shapes), history_shapes_top=dict(shapes.most_common(8)),
         x0_omitted=sum(1 for c in cases if c["S"]["x0"] is None),
+        reused_caller_arrays=sum(1 for c in cases if c.get("reuse")),
         noise_from_global_rng=sum(1 for c in cases if (c["S"].get("noise") or {}).get("rng") == "global"),
         fit_fault_cases=dict(generated=sum(1 for c in cases if c["S"].get("faults")),
                              fired_in_reference=sum(1 for i in range(len(cases)) if outs[3 * i] is not None and outs[3 * i].get("fired"))),
@@ -216,7 +221,7 @@ def _differs(case):
     if case.get("variant") == "clock":
         b = dict(S=case["S"], clock=case["alt_clock"])
     else:
-        b = dict(S=case["S"], pre=case["pre"], between=case["between"])
+        b = dict(S=case["S"], pre=case["pre"], between=case["between"], reuse=case.get("reuse"))
     res = pool.run_tasks(variant, [a, b], timeout=900)
     if res[0][0] != "ok" or res[1][0] != "ok":
         return False, None
